@@ -726,7 +726,8 @@ pub fn case_out(cfg: &Cfg, i: u64) -> CaseOut {
     for t in term_tags(&case.term) {
         tally.add(format!("reach:{t}"));
     }
-    CaseOut { viol, tally: tally.0, keys, sample }
+    let digest = hash_str(&format!("{:?}{:?}{:?}", tally.0, keys, viol.as_ref().map(|v| &v.class)));
+    CaseOut { digest, viol, tally: tally.0, keys, sample }
 }
 
 /// The violation reported for a case whose worker process crashed or hung.
@@ -761,6 +762,7 @@ pub fn check(cfg: &Cfg) -> Result<i32, Harness> {
         evaluations += 1;
         match r {
             crate::par::CaseEnd::Done(o) => {
+                record_digest(i as u64, o.digest);
                 tally.merge(&Tally(o.tally));
                 shapes.extend(o.keys);
                 violations.extend(o.viol);
